@@ -47,6 +47,74 @@ impl CompressionCodecState {
 	}
 }
 
+/// Starting length of the output buffer of the deflate / bzip2 / xz encode loops
+/// (default buffer length in flate2)
+#[cfg(not(ten0_serde_avro_fast_verif))]
+#[allow(dead_code)]
+#[inline(always)]
+fn initial_output_len() -> usize {
+	32 * 1024
+}
+#[cfg(ten0_serde_avro_fast_verif)]
+#[allow(dead_code)]
+fn initial_output_len() -> usize {
+	verif_h3::START_LEN.with(|s| s.get())
+}
+
+/// Verification hook H3 (only with `--cfg ten0_serde_avro_fast_verif`): the starting length of
+/// the output buffer of the encode loops can be overridden, and every call the loops make to
+/// the compression library is recorded in a thread-local trace.
+#[cfg(ten0_serde_avro_fast_verif)]
+#[allow(dead_code, missing_docs)]
+pub mod verif_h3 {
+	use std::cell::{Cell, RefCell};
+
+	/// One call to the library with the `Finish` action
+	#[derive(Clone, Copy, Debug, PartialEq, Eq)]
+	pub struct LoopCall {
+		/// Length of the input slice passed
+		pub input_len: usize,
+		/// Length of the output window passed
+		pub free: usize,
+		/// One of the `ST_*` constants
+		pub status: u8,
+		/// `total_in` after - `total_in` before
+		pub consumed: usize,
+		/// `total_out` after the call
+		pub produced_total: usize,
+	}
+	pub const ST_OK: u8 = 0;
+	pub const ST_BUF_ERROR: u8 = 1;
+	pub const ST_STREAM_END: u8 = 2;
+	pub const ST_FLUSH_OK: u8 = 3;
+	pub const ST_RUN_OK: u8 = 4;
+	pub const ST_FINISH_OK: u8 = 5;
+	pub const ST_MEM_NEEDED: u8 = 6;
+	pub const ST_GET_CHECK: u8 = 7;
+
+	thread_local! {
+		pub(super) static START_LEN: Cell<usize> = const { Cell::new(32 * 1024) };
+		static TRACE: RefCell<Vec<LoopCall>> = const { RefCell::new(Vec::new()) };
+	}
+	/// Overrides (for the current thread) the length the output buffer gets when it is empty
+	pub fn set_start_len(n: usize) {
+		START_LEN.with(|s| s.set(n));
+	}
+	/// Returns and clears the trace of the current thread
+	pub fn take_trace() -> Vec<LoopCall> {
+		TRACE.with(|t| std::mem::take(&mut *t.borrow_mut()))
+	}
+	pub(super) fn record(call: LoopCall) {
+		TRACE.with(|t| {
+			let mut t = t.borrow_mut();
+			// bounded: a trace nobody takes does not grow forever
+			if t.len() < (1 << 16) {
+				t.push(call);
+			}
+		});
+	}
+}
+
 /// This is potentially a large enum due to the snap encoder's buffer
 enum Kind {
 	Null,
@@ -108,10 +176,14 @@ impl CompressionCodecState {
 				if self.output_vec.is_empty() {
 					// Default buffer length in flate2
 					self.output_vec.resize(32 * 1024, 0);
+					#[cfg(ten0_serde_avro_fast_verif)]
+					self.output_vec.resize(initial_output_len(), 0);
 				}
 				let mut input = input;
 				loop {
 					let before_in = compress.total_in() as usize;
+					#[cfg(ten0_serde_avro_fast_verif)]
+					let verif_free = self.output_vec.len().wrapping_sub(compress.total_out() as usize);
 					let status = compress
 						.compress(
 							input,
@@ -120,6 +192,18 @@ impl CompressionCodecState {
 						)
 						.map_err(|deflate_error| error("Deflate", &deflate_error))?;
 					let written = compress.total_in() as usize - before_in;
+					#[cfg(ten0_serde_avro_fast_verif)]
+					verif_h3::record(verif_h3::LoopCall {
+						input_len: input.len(),
+						free: verif_free,
+						status: match status {
+							flate2::Status::Ok => verif_h3::ST_OK,
+							flate2::Status::BufError => verif_h3::ST_BUF_ERROR,
+							flate2::Status::StreamEnd => verif_h3::ST_STREAM_END,
+						},
+						consumed: written,
+						produced_total: compress.total_out() as usize,
+					});
 					match status {
 						flate2::Status::Ok => {
 							// There may be more to write.
@@ -151,10 +235,14 @@ impl CompressionCodecState {
 					});
 				if self.output_vec.is_empty() {
 					self.output_vec.resize(32 * 1024, 0);
+					#[cfg(ten0_serde_avro_fast_verif)]
+					self.output_vec.resize(initial_output_len(), 0);
 				}
 				let mut input = input;
 				loop {
 					let before_in = compress.total_in() as usize;
+					#[cfg(ten0_serde_avro_fast_verif)]
+					let verif_free = self.output_vec.len().wrapping_sub(compress.total_out() as usize);
 					let status = compress
 						.compress(
 							input,
@@ -163,6 +251,21 @@ impl CompressionCodecState {
 						)
 						.map_err(|deflate_error| error("Bzip2", &deflate_error))?;
 					let written = compress.total_in() as usize - before_in;
+					#[cfg(ten0_serde_avro_fast_verif)]
+					verif_h3::record(verif_h3::LoopCall {
+						input_len: input.len(),
+						free: verif_free,
+						status: match status {
+							bzip2::Status::Ok => verif_h3::ST_OK,
+							bzip2::Status::FlushOk => verif_h3::ST_FLUSH_OK,
+							bzip2::Status::RunOk => verif_h3::ST_RUN_OK,
+							bzip2::Status::FinishOk => verif_h3::ST_FINISH_OK,
+							bzip2::Status::StreamEnd => verif_h3::ST_STREAM_END,
+							bzip2::Status::MemNeeded => verif_h3::ST_MEM_NEEDED,
+						},
+						consumed: written,
+						produced_total: compress.total_out() as usize,
+					});
 					match status {
 						bzip2::Status::MemNeeded | bzip2::Status::FinishOk => {
 							// There may be more to write (`FinishOk` means that the stream
@@ -205,10 +308,14 @@ impl CompressionCodecState {
 				.map_err(|err| error("Xz", &err))?;
 				if self.output_vec.is_empty() {
 					self.output_vec.resize(32 * 1024, 0);
+					#[cfg(ten0_serde_avro_fast_verif)]
+					self.output_vec.resize(initial_output_len(), 0);
 				}
 				let mut input = input;
 				loop {
 					let before_in = compress.total_in() as usize;
+					#[cfg(ten0_serde_avro_fast_verif)]
+					let verif_free = self.output_vec.len().wrapping_sub(compress.total_out() as usize);
 					let status = compress
 						.process(
 							input,
@@ -217,6 +324,19 @@ impl CompressionCodecState {
 						)
 						.map_err(|deflate_error| error("Xz", &deflate_error))?;
 					let written = compress.total_in() as usize - before_in;
+					#[cfg(ten0_serde_avro_fast_verif)]
+					verif_h3::record(verif_h3::LoopCall {
+						input_len: input.len(),
+						free: verif_free,
+						status: match status {
+							xz2::stream::Status::Ok => verif_h3::ST_OK,
+							xz2::stream::Status::StreamEnd => verif_h3::ST_STREAM_END,
+							xz2::stream::Status::GetCheck => verif_h3::ST_GET_CHECK,
+							xz2::stream::Status::MemNeeded => verif_h3::ST_MEM_NEEDED,
+						},
+						consumed: written,
+						produced_total: compress.total_out() as usize,
+					});
 					match status {
 						xz2::stream::Status::MemNeeded | xz2::stream::Status::Ok => {
 							// There may be more to write (`Ok` means that progress was made
